@@ -57,6 +57,13 @@ func execute(t *testing.T, eng *Engine, seed uint64, wl, sch *Tape) (res RunResu
 		os.Exit(3)
 	})
 	defer wd.Stop()
+	// the garbage collector preempts and reorders runnable goroutines at moments the simulator does not own: keep it
+	// off while a run is in progress and collect between runs
+	oldGC := debug.SetGCPercent(-1)
+	defer func() {
+		debug.SetGCPercent(oldGC)
+		runtime.GC()
+	}()
 	body := func(t *testing.T) {
 		s := NewSim(t, eng.Prop, seed, wl, sch)
 		if eng.MaxSteps > 0 {
